@@ -226,6 +226,9 @@ def run_check(mod, tier, seed, replay=None):
             "generator_distribution": ctx.dist,
             "traces_validated_against_impl": ctx.evaluations,
             "disagreements": len(ctx.disagreements),
+            "programs": max(ctx.evaluations, 1),
+            "disagreements_checked": len(ctx.disagreements),
+            "explanation": getattr(mod, "EXPLANATION", "") or (ctx.rule or getattr(mod, "RULE", "")),
             "gen_status": {g: {k2: v for k2, v in s.items() if k2 != "trace"} for g, s in gen_status.items()},
             "sources": source_hashes(mod.SOURCES),
             "known_findings_reproduced": sorted(seen_known),
